@@ -43,36 +43,12 @@ def r1(ctx):
         else:
             ok = len(warns) == 1 and warns[0][1] == "log.warning" and not extra
             ctx.check(ok, key, f"an #include that resolves to no file must produce exactly one log.warning, unconditionally (got {len(warns)}; extra conditions {extra})", f.loc())
-    # --- -include
-    find = repo.func("finder", "find")
-    calls = [c for c in find.calls() if isinstance(c.func, ast.Attribute) and c.func.attr == "find_include_file"]
-    ctx.require(len(calls) == 1, "finder.find: forced-include lookup not found")
-    asg = [s for s in walk_no_nested(find.node) if isinstance(s, ast.Assign) and s.value is calls[0]]
-    ctx.require(len(asg) == 1, "finder.find: result of the forced-include lookup is not bound to a name")
-    var = u(asg[0].targets[0])
-    blk = None
-    for n in walk_no_nested(find.node):
-        if isinstance(n, ast.For) and asg[0] in n.body:
-            blk = n.body
-    ctx.require(blk is not None, "finder.find: forced-include loop not found")
-    tests = [s for s in blk if isinstance(s, ast.If) and u(s.test) in (var, f"not {var}", f"{var} is None", f"{var} is not None")]
-    key = "finder:find:-include:miss-warned"
-    if len(tests) != 1:
-        ctx.violation(key, "the result of the forced-include lookup is not tested", find.loc(asg[0]))
-    else:
-        t = tests[0]
-        miss = t.orelse if u(t.test) in (var, f"{var} is not None") else t.body
-        ok = any(isinstance(x, ast.Expr) and isinstance(x.value, ast.Call) and u(x.value.func) == "log.warning" for x in miss)
-        ctx.check(ok, key, "a file requested with -include that cannot be found is dropped without a warning", find.loc(t))
-        if ok:
-            w = next(x.value for x in miss if isinstance(x, ast.Expr) and isinstance(x.value, ast.Call) and u(x.value.func) == "log.warning")
-            names = {n.id for n in ast.walk(w) if isinstance(n, ast.Name)}
-            ctx.soft("include" in names and "e" in names, "finder:find:-include:message-names-file", "the warning must name the requested file and the compiled file", find.loc(w))
+    # --- -include: decided on the decision table of finder.find (C18.R8 = C04.R4)
     # R5: the resolver itself never logs (so its memo cannot swallow or duplicate a warning)
     fif = repo.cls("platform", "Platform").find_method("find_include_file")
     logs = [c for c in fif.calls() if (dotted(c.func) or "").startswith("log.")]
     ctx.check(not logs, "platform:Platform.find_include_file:no-logging", "warnings must be issued by the caller for every miss, not inside the memoised resolver", fif.loc())
-    ctx.floor(6)
+    ctx.floor(5)
 
 
 @rule("C18.R2", "every place where config.py drops part of its input is preceded by a warning or error; nothing is remembered across entries")
